@@ -367,6 +367,9 @@ func gqlInner(t reflect.Type) string {
 
 // sig is the distinctness key of a type.
 func sig(t reflect.Type) string {
+	if k := t.Kind(); (k == reflect.Slice || k == reflect.Map) && t.Name() != "" && classify(t) == cText {
+		return t.String() // whatever its kind, it is one text-transported leaf
+	}
 	switch t.Kind() {
 	case reflect.Ptr:
 		return "*" + sig(t.Elem())
